@@ -606,7 +606,7 @@ META = {
              'candidates are generated for every distance 0..k over exactly {A,C,G,T,N} with hamming_circle changing n positions to one of the '
              'len(alphabet)-1 other letters; lookups try exact (distance 0, itself), expanded, then a pending lazy file loaded once through the helper '
              'that also expands; no other method loads a pending file. Does NOT decide the nearest-neighbour statement over runtime whitelists.'),
-    'technique': 'static analysis: comparison-predicate enumeration over abstract candidate lists, provenance checks of registration arguments, who-may-call rule for the lazy loader',
+    'technique': 'static analysis: comparison-predicate enumeration over abstract candidate lists, provenance checks of registration arguments, who-may-call rule for the lazy loader; small-scope abstract execution of hamming_circle / expand in the checker\'s own interpreter (every string of length <= 3 over two alphabets; every whitelist of 2-3 two-letter barcodes x k in 0..2 x every observed string over ACGTN)',
     'design_ref': 'DESIGN.md section 5, C03',
 }
 
